@@ -87,8 +87,13 @@ def strict_outcome(s, ctxname, off=None):
     PE = px.parse_error_class()
     kw = {}
     if off is not None:
-        kw = {'line_number_offset': off[0], 'first_line_column_offset': off[1],
-              'column_offset': off[2]}
+        # only what differs from the defaults is passed
+        if off[0] is not None:
+            kw['line_number_offset'] = off[0]
+        if off[1]:
+            kw['first_line_column_offset'] = off[1]
+        if off[2]:
+            kw['column_offset'] = off[2]
     try:
         w, nl = px.parse(s, ctx(ctxname), tolerant=False, **kw)
         return 'tree', nl
@@ -163,7 +168,8 @@ def check_inject(src, ctxname, off, fault, res, case):
         res.label('inject:rejected')
         # ... and the rejection is located
         pos = getattr(val, 'pos', None)
-        what = (getattr(val, 'error_type_info', None) or {}).get('what', '?')
+        eti = getattr(val, 'error_type_info', None)
+        what = eti.get('what', '?') if isinstance(eti, dict) else '?'
         if not isinstance(pos, int) or not (0 <= pos <= len(faulty)):
             res.fail('c05:error-pos-out-of-input:' + str(what),
                      'error pos=%r for input of length %d: %r' % (pos, len(faulty), faulty), case)
@@ -213,7 +219,12 @@ def run_unclosed(res):
                 kind, val = strict_outcome(src, ctxname)
                 res.nontriv((ctxname, src))
                 res.label('unclosed-opener', case)
-                if kind == 'tree':
+                must_reject = opener.endswith('{') or '\\begin{' in opener
+                if kind == 'tree' and not must_reject:
+                    # an unclosed bracket / verbatim / delimited argument is not among the
+                    # unbalanced constructs the statement names: tree or located error
+                    res.label('unclosed-opener:accepted-non-brace')
+                elif kind == 'tree':
                     res.fail('c05:accepted:unclosed:' + opener.strip('\\')[:12],
                              'strict mode accepted %r although %r is never closed'
                              % (src, opener), case)
